@@ -725,6 +725,10 @@ class XMLResource(XMLResourceLoader):
                             ancestors.pop()
                         continue
                     elif level == path_depth:
+                        if not select_all and self._xpath_root is not None:
+                            # the tree has grown since the last selection: drop
+                            # the cached children of the lazy XPath root node
+                            self._xpath_root.children.clear()
                         if select_all or node in selector.iter_select(self):
                             yield node
                     if level == lazy_depth:
